@@ -294,6 +294,8 @@ pub trait Cross: Function {
 
 #[derive(Default)]
 pub struct CrossStash {
+    s2: Vec<VmData<2>>,
+    w2: VmWorkspace<2>,
     s3: Vec<VmData<3>>,
     s8: Vec<VmData<8>>,
     s255: Vec<VmData<255>>,
@@ -301,6 +303,10 @@ pub struct CrossStash {
     w8: VmWorkspace<8>,
     w255: VmWorkspace<255>,
 }
+
+/// `cross_target` value that asks for the smallest budget the library's own
+/// tests use (`simplify::<2>`); see known finding F8
+const TWO_REGISTERS: u32 = 6;
 
 fn cross_one<const N: usize, const M: usize>(
     f: &GenericVmFunction<N>,
@@ -340,6 +346,11 @@ impl<const N: usize> Cross for GenericVmFunction<N> {
         dirty: bool,
         pts: &[Vec<f32>],
     ) -> Option<Result<(Res, usize), String>> {
+        if target == TWO_REGISTERS {
+            return Some(cross_one::<N, 2>(
+                self, trace, &mut cs.s2, &mut cs.w2, dirty, pts,
+            ));
+        }
         Some(match target % 3 {
             0 => cross_one::<N, 3>(self, trace, &mut cs.s3, &mut cs.w3, dirty, pts),
             1 => cross_one::<N, 8>(self, trace, &mut cs.s8, &mut cs.w8, dirty, pts),
@@ -1244,7 +1255,8 @@ impl<'a, F: Function + MathFunction + Clone + Cross> World<'a, F> {
             let cols: Vec<Vec<f32>> = (0..nvars)
                 .map(|i| pts.iter().map(|p| p[i]).collect())
                 .collect();
-            let target = self.ch(|c| c.choose("cross_target", 3));
+            let target = self.ch(|c| c.choose("cross_target", 7));
+            let two = target == TWO_REGISTERS;
             let slot = &self.slots[s];
             let dr = slot.dirty.cross(
                 &trace,
@@ -1262,7 +1274,18 @@ impl<'a, F: Function + MathFunction + Clone + Cross> World<'a, F> {
             );
             if let (Some(dr), Some(cr)) = (dr, cr) {
                 self.rep.count("op.cross_budget_simplify", 1);
+                if two {
+                    self.rep.count("op.cross_budget_two_registers", 1);
+                }
                 match (dr, cr) {
+                    // a budget of two registers: every failure is reported
+                    // under one clause of its own (known finding F8: the
+                    // allocator needs three registers for a three-operand
+                    // instruction whose operands are all live)
+                    (Err(p), _) | (_, Err(p)) if two => self.violate04(
+                        "two_register_budget_fails",
+                        format!("simplify_with::<2> outputs={}: {p}", parent_clean.output_count()),
+                    ),
                     (Ok((dv, ds)), Ok((cv, cs))) => {
                         if dv != cv || ds != cs {
                             self.violate10(
@@ -1284,7 +1307,11 @@ impl<'a, F: Function + MathFunction + Clone + Cross> World<'a, F> {
                                     rows.iter().map(|r| r[k]).collect();
                                 if child != pr.float {
                                     self.violate04(
-                                        "cross_budget_child_differs_from_parent",
+                                        if two {
+                                            "two_register_budget_fails"
+                                        } else {
+                                            "cross_budget_child_differs_from_parent"
+                                        },
                                         format!(
                                             "budget {target} point {:?}: parent {:?} child {child:?}",
                                             pts[k], pr.float
